@@ -3,6 +3,7 @@ package c18
 
 import (
 	"fmt"
+	"runtime/debug"
 	"sort"
 	"strings"
 	"sync"
@@ -27,11 +28,11 @@ func TestMain(m *testing.M) { h.Init(); ev.Main(m) }
 // ---- parking -----------------------------------------------------------------------------------
 
 type parker struct {
-	mu      sync.Mutex
-	at      string // park at this point ("" = nowhere)
-	armed   bool
-	parked  chan struct{}
-	resume  chan struct{}
+	mu     sync.Mutex
+	at     string // park at this point ("" = nowhere)
+	armed  bool
+	parked chan struct{}
+	resume chan struct{}
 }
 
 var pk = &parker{}
@@ -103,10 +104,14 @@ func genSmallModel(t *rapid.T) *ref.Model {
 	nr := rapid.IntRange(2, 5).Draw(t, "nroutes")
 	for i := 0; i < nr; i++ {
 		r := ref.RouteModel{Key: fmt.Sprintf("r%d", i), Filter: genF(t, "route", 15)}
-		r.Type = rapid.SampledFrom([]string{"capture", "capture", "sendAllMatch", "sendFirstMatch"}).Draw(t, "rtype")
+		r.Type = rapid.SampledFrom([]string{"capture", "capture", "sendAllMatch", "sendFirstMatch", "consistentHashing"}).Draw(t, "rtype")
 		if r.Type != "capture" {
-			for j, nd := 0, rapid.IntRange(1, 4).Draw(t, "ndest"); j < nd; j++ {
-				r.Dests = append(r.Dests, ref.DestModel{Filter: genF(t, "dest", 25)})
+			maxd := 4
+			if r.Type == "consistentHashing" {
+				maxd = 7 // (ring sizes on both sides of the slice growth steps)
+			}
+			for j, nd := 0, rapid.SampledFrom([]int{1, 2, 3, 4, 5, 6, 7}[:maxd]).Draw(t, "ndest"); j < nd; j++ {
+				r.Dests = append(r.Dests, ref.DestModel{Filter: genF(t, "dest", 25), Inst: j, InstSet: true})
 			}
 		}
 		m.Routes = append(m.Routes, r)
@@ -167,6 +172,13 @@ func expected(m *ref.Model, id ids) deliveries {
 	for _, ri := range o.Routes {
 		if m.Routes[ri].Type == "capture" {
 			d["route:"+id.routes[ri]]++
+		} else if m.Routes[ri].Type == "consistentHashing" {
+			// exactly the destination carbon's ring picks among the destinations of this state
+			var insts []int
+			for _, dm := range m.Routes[ri].Dests {
+				insts = append(insts, dm.Inst)
+			}
+			d["dest:"+id.dests[ri][ref.CarbonOwner(insts, o.NewName)]]++
 		} else {
 			for _, dj := range o.Dests[ri] {
 				d["dest:"+id.dests[ri][dj]]++
@@ -191,6 +203,7 @@ func TestPropParkedDispatch(t *testing.T) {
 	rapid.Check(t, func(t *rapid.T) {
 		mb := genSmallModel(t)
 		b := ref.Build(mb, ref.BuildOpts{InBuf: 10, AggFmts: uniqueFmts(len(mb.Aggs))})
+		destSeq := 0
 		// stable ids and the objects behind them
 		var idb ids
 		destObjs := map[string]*dest.Destination{}
@@ -227,6 +240,12 @@ func TestPropParkedDispatch(t *testing.T) {
 			}
 		}
 		point := rapid.SampledFrom(points).Draw(t, "parkpoint")
+		parkedIn, focused := "table", false
+		for _, r := range mb.Routes {
+			if point == "route:"+r.Key || point == "capture:"+r.Key {
+				parkedIn = r.Type
+			}
+		}
 
 		// 1-3 admin operations, each generated against the table as the previous ones leave it
 		cur := cloneModel(mb)
@@ -251,6 +270,20 @@ func TestPropParkedDispatch(t *testing.T) {
 			for i, r := range cur.Routes {
 				if r.Type != "capture" {
 					realRoutes = append(realRoutes, i)
+				}
+			}
+			// when the dispatcher is parked inside a carbon route, half of the operations work on that very route
+			// (its destination list, a destination's filter, its own filter): those are the interleavings that matter there
+			focus := -1
+			if strings.HasPrefix(point, "route:") && rapid.Bool().Draw(t, "focus") {
+				for _, i := range realRoutes {
+					if cur.Routes[i].Key == point[len("route:"):] {
+						focus = i
+					}
+				}
+				if focus >= 0 {
+					focused = true
+					kind = rapid.SampledFrom([]string{"addDest", "addDest", "delDest", "delDest", "modDest", "modRoute"}).Draw(t, "focusop")
 				}
 			}
 			var op func() error
@@ -344,12 +377,18 @@ func TestPropParkedDispatch(t *testing.T) {
 					continue
 				}
 				ri := realRoutes[rapid.IntRange(0, len(realRoutes)-1).Draw(t, "ridx")]
+				if focus >= 0 {
+					ri = focus
+				}
 				key := cur.Routes[ri].Key
 				rt := routeObjs[key]
 				switch kind {
 				case "delDest":
 					if len(cur.Routes[ri].Dests) == 0 {
 						continue
+					}
+					if cur.Routes[ri].Type == "consistentHashing" && len(cur.Routes[ri].Dests) == 1 {
+						continue // (refused by the relay: a consistent-hashing route keeps at least one destination)
 					}
 					j := rapid.IntRange(0, len(cur.Routes[ri].Dests)-1).Draw(t, "didx")
 					op = func() error { return b.Tab.DelDestination(key, j) }
@@ -360,7 +399,8 @@ func TestPropParkedDispatch(t *testing.T) {
 					curID.dests[ri] = append(curID.dests[ri][:j:j], curID.dests[ri][j+1:]...)
 				case "addDest":
 					f := genF(t, "newdest", 25)
-					nd := h.CounterDest(key, f.MustMatcher(), 100+entSeq%400)
+					destSeq++ // (per case: the instance decides the ring positions, so it must be a function of the draws only)
+					nd := h.CounterDest(key, f.MustMatcher(), 100+destSeq)
 					k := fmt.Sprintf("%s/dnew%d", key, entSeq)
 					destObjs[k] = nd
 					op = func() error {
@@ -369,11 +409,13 @@ func TestPropParkedDispatch(t *testing.T) {
 							r.Add(nd)
 						case *route.SendFirstMatch:
 							r.Add(nd)
+						case *route.ConsistentHashing:
+							r.Add(nd)
 						}
 						return nil
 					}
 					desc = fmt.Sprintf("addDest %s %s", key, f)
-					cur.Routes[ri].Dests = append(cur.Routes[ri].Dests, ref.DestModel{Filter: f})
+					cur.Routes[ri].Dests = append(cur.Routes[ri].Dests, ref.DestModel{Filter: f, Inst: 100 + destSeq, InstSet: true})
 					curID.dests[ri] = append(curID.dests[ri], k)
 				default:
 					if len(cur.Routes[ri].Dests) == 0 {
@@ -388,6 +430,9 @@ func TestPropParkedDispatch(t *testing.T) {
 				}
 			case "modRoute":
 				ri := rapid.IntRange(0, len(cur.Routes)-1).Draw(t, "ridx")
+				if focus >= 0 {
+					ri = focus
+				}
 				key := cur.Routes[ri].Key
 				f := genF(t, "modroute", 50)
 				opts := map[string]string{"prefix": f.Prefix, "notPrefix": f.NotPrefix, "sub": f.Sub, "notSub": f.NotSub, "regex": f.Regex, "notRegex": f.NotRegex}
@@ -430,7 +475,18 @@ func TestPropParkedDispatch(t *testing.T) {
 			parked, resume = pk.arm(point)
 		}
 		dispDone := make(chan struct{})
-		go func() { b.Tab.Dispatch([]byte(line)); close(dispDone) }()
+		var dispPanic interface{}
+		var dispStack []byte
+		go func() {
+			defer close(dispDone)
+			defer func() {
+				// (in the relay this panic ends the process; here it is kept so that the case can be reported and shrunk)
+				if r := recover(); r != nil {
+					dispPanic, dispStack = r, debug.Stack()
+				}
+			}()
+			b.Tab.Dispatch([]byte(line))
+		}()
 		reached := false
 		select {
 		case <-parked:
@@ -482,6 +538,11 @@ func TestPropParkedDispatch(t *testing.T) {
 			case <-time.After(10 * time.Second):
 				t.Fatalf("dispatcher did not finish after %q (parked at %s; table %s)", opDesc, point, mb)
 			}
+		}
+		if dispPanic != nil {
+			close(stopDrain)
+			dwg.Wait()
+			t.Fatalf("metric %q dispatched while %q ran (dispatcher parked at %s, reached=%v): the dispatcher PANICKED: %v\n  table before: %s\n%s", line, opDesc, point, reached, dispPanic, mb, dispStack)
 		}
 		close(stopDrain)
 		dwg.Wait()
@@ -627,7 +688,7 @@ func TestPropParkedDispatch(t *testing.T) {
 				a.Shutdown()
 			}
 		}
-		rec.Case(fmt.Sprintf("%s | park=%s reached=%v | %s", mb, point, reached, opDesc), reached && deletedNonLast, fmt.Sprintf("nops=%d", len(ops)), fmt.Sprintf("reached-park=%v", reached), fmt.Sprintf("deleted-non-last=%v", deletedNonLast))
+		rec.Case(fmt.Sprintf("%s | park=%s reached=%v | %s", mb, point, reached, opDesc), reached && deletedNonLast, fmt.Sprintf("nops=%d", len(ops)), fmt.Sprintf("reached-park=%v", reached), fmt.Sprintf("deleted-non-last=%v", deletedNonLast), "parked-in="+parkedIn, fmt.Sprintf("op-on-parked-route=%v", focused))
 	})
 }
 
